@@ -194,6 +194,21 @@ def user_addr_writers(radio, agg, p0f, lite=False):
                                     okw, "%s assigns self.%s%s" % (fi.qualname, p0f, why), node)
     f_open = radio.prog.method(radio.cls, "open_rx_pipe")
     f_close = radio.prog.method(radio.cls, "close_rx_pipe")
+    # the remembered address is the driver's own copy: neither the caller's (mutable) buffer nor the register shadow may be stored, or a later
+    # change of either silently changes the address pipe 0 is restored to
+    for plen in (5, 3):
+        st = radio.fresh()
+        buf = st.alloc("bytearray", items=[Const(0x31 + i) for i in range(plen)], label="caller-address")
+        for out in radio.run(f_open, [0, buf], st):
+            if out.kind != "return":
+                continue
+            n += 1
+            cur = out.state.heap[radio.ref.ident].fields.get(p0f)
+            sh = radio.shadow_value(out.state, 0x0A) if not lite else None
+            agg.add("R08.1", f_open, "open_rx_pipe(0, addr) remembers a private copy of the address, not the caller's buffer", not (isinstance(cur, Ref) and cur.ident == buf.ident),
+                    "open_rx_pipe(0, <bytearray of %d>) stores the caller's own bytearray: changing it later changes the address restored on RX entry" % plen)
+            agg.add("R08.1", f_open, "the remembered address is not the register shadow itself", not (isinstance(cur, Ref) and isinstance(sh, Ref) and cur.ident == sh.ident),
+                    "open_rx_pipe(0, ..) stores the pipe-0 shadow buffer as the remembered address: open_tx_pipe() overwrites the shadow in place, and with it the address to restore")
     for p in range(6):
         for user in (None, B):
             st = radio.fresh()
